@@ -193,6 +193,15 @@ impl AnyCache {
             AnyCache::Async(c) => verif::snapshot_async(c),
         }
     }
+    fn estimates(&self) -> Value {
+        let mut idx: Vec<u64> = KEYTAB.iter().map(|k| k.0).collect();
+        idx.sort();
+        idx.dedup();
+        json!(idx.iter().map(|i| match self {
+            AnyCache::Sync(c) => json!([i, verif::estimate_sync(c, *i)]),
+            AnyCache::Async(c) => json!([i, verif::estimate_async(c, *i)]),
+        }).collect::<Vec<_>>())
+    }
     fn metrics(&self) -> Value {
         let m = match self {
             AnyCache::Sync(c) => c.metrics.clone(),
@@ -221,6 +230,7 @@ fn post(c: &AnyCache) -> Value {
         "used": s.used, "max": s.max_cost, "buf": s.buf_len, "clearq": s.clear_len, "stopq": s.stop_len,
         "closed": s.closed, "polclosed": s.pol_closed, "len": s.len, "ring": s.ring_len, "polq": s.pol_queue_len,
         "met": c.metrics(),
+        "est": c.estimates(), "tinyw": s.tiny_w,
     })
 }
 
